@@ -72,4 +72,9 @@ CLAIMS = {
         "note": TRUST + " A later write to the same field on the way to the exit counts as compensation without checking that it undoes the first; commit sites are mutating container calls (frozen MUTATORS list) and plain stores.",
         "technique": "interprocedural effect (commit) summaries + CFG reachability to error exits, with enum-variant path-feasibility pruning",
     },
+    "C14": {
+        "text": "Partial, structural: decides on MIR the ordering argument of the rebuild loop (rebuild_containers dominates apply_rebuild dominates refresh_rows_for_values, the refresh receives that pass's dirty ids, both passes use one next_ts read with no inc_ts before them, inc_ts afterwards); that rebuild_all always closes the dirty-id set over containing containers on the summary it returns; that the three container-rebuild variants each rebuild the own id, rebuild contents, merge on collision with to_container/val_index maintenance under result != old, record dirty ids only under an id-unchanged test and note changes; that all six ContainerValue impls rebuild their contents through the ValueRebuilder and return a computed flag; and R-MIN for the container merge closure. Does NOT decide equality of containers modulo unions on data.",
+        "note": TRUST,
+        "technique": "MIR dominance/value-origin rules, sibling cross-check of the three rebuild variants, trait-impl inventory",
+    },
 }
